@@ -17,12 +17,13 @@ def _design(w, arr):
     B = BundleDef("B", [("x", w), ("y", 1)])
     N = BundleDef("N", [("z", 1)], [("b", B)])
     cell = Ext("Cell", [("a", w), ("b", 1)])
-    leaf = Mod("BLeafW", ports=[("a", w), ("g", 1)], buns=[("bb", B, True)], insts=[
+    leaf = Mod("BLeafW", ports=[("a", w), ("g", 1)], buns=[("bb", B, True), ("bc", B, True)], insts=[
         Inst("u", cell, {"a": Sig("a"), "b": Sig("g")}),
-        Inst("v", cell, {"a": BRef("bb", ("x",)), "b": BRef("bb", ("y",))})])
+        Inst("v", cell, {"a": BRef("bb", ("x",)), "b": BRef("bb", ("y",))}),
+        Inst("v2", cell, {"a": BRef("bc", ("x",)), "b": BRef("bc", ("y",))})])
     top = Mod("Top", ports=[("s", w), ("t", w), ("bus", 2 * w), ("uu", w), ("g1", 1)],
               buns=[("b1", B, False), ("pb", B, True), ("nn", N, False)],
-              insts=[Inst("j", leaf, {"a": Sig("uu"), "g": Sig("g1"), "bb": Bun("b1")}),
+              insts=[Inst("j", leaf, {"a": Sig("uu"), "g": Sig("g1"), "bb": Bun("b1"), "bc": Bun("b1")}),
                      Inst("i", leaf, {"g": Sig("g1")}, kind="array" if arr else "inst", n=2 if arr else 1),
                      Inst("k", cell, {"a": Sig("t"), "b": Sig("g1")}),   # further instances that may come to REFERENCE i's bus port
                      Inst("k2", cell, {"a": Sig("t"), "b": Sig("g1")}),
@@ -70,7 +71,7 @@ def _history(ops, w, arr):
             m.get(who).connect("a", hi.a)
             kfinal[who] = PRef("i", "a")
             continue
-        pname = "a" if port == 0 else "bb"
+        pname = ("a", "bb", "bc")[port]  # (bb and bc are two bundle ports of one type: one object may sit on both)
         e = _opt_a(c, w) if port == 0 else _opt_b(c, w)
         if op in (3, 4) and pname not in final:
             return None  # replace / disconnect of an unconnected port raise KeyError by contract
@@ -92,7 +93,9 @@ def _history(ops, w, arr):
     if "a" not in final:
         hi.connect("a", b.expr(m, Sig("s"), ncs)); final["a"] = Sig("s")
     if "bb" not in final:
-        hi.connect("bb", b.expr(m, Bun("b1"), ncs)); final["bb"] = Bun("b1")
+        hi.connect("bb", b.expr(m, Bun("pb"), ncs)); final["bb"] = Bun("pb")
+    if "bc" not in final:
+        hi.connect("bc", b.expr(m, Bun("b1"), ncs)); final["bc"] = Bun("b1")
     top.insts[1].conns = final
     top.insts[2].conns = {"a": kfinal["k"], "b": Sig("g1")}
     top.insts[3].conns = {"a": kfinal["k2"], "b": Sig("g1")}
@@ -122,23 +125,23 @@ def _legal(c, port, w, arr):
         if arr and c >= 4: return False  # array port: signals and slices (port references / no-connects on arrays are not in scope)
         return c < NA
     if arr and c >= 2: return False
-    return c < NB
+    return c < NB  # (ports 1 and 2: the two bundle ports)
 
 
 _ARGS = "o0: int, p0: int, c0: int, o1: int, p1: int, c1: int, o2: int, p2: int, c2: int, w: int, arr: bool"
-_PRE = ["0 <= o0 <= 2 or o0 == 5", "o0 != 5 or (p0 == 0 and c0 == 0)", "0 <= p0 <= 1", "0 <= c0 <= 7", "0 <= o1 <= 5", "0 <= p1 <= 1", "0 <= c1 <= 7", "0 <= o2 <= 5", "0 <= p2 <= 1", "0 <= c2 <= 7", "1 <= w <= 2", "o1 != 5 or (p1 == 0 and c1 == 0)", "o2 != 5 or (p2 == 0 and c2 == 0)"]
+_PRE = ["0 <= o0 <= 2 or o0 == 5", "o0 != 5 or (p0 == 0 and c0 == 0)", "0 <= p0 <= 2", "0 <= c0 <= 7", "0 <= o1 <= 5", "0 <= p1 <= 2", "0 <= c1 <= 7", "0 <= o2 <= 5", "0 <= p2 <= 2", "0 <= c2 <= 7", "1 <= w <= 2", "o1 != 5 or (p1 == 0 and c1 == 0)", "o2 != 5 or (p2 == 0 and c2 == 0)"]
 
 
 @harness("C04", args=_ARGS, pre=_PRE,
-         tiers={"quick": {"timeout": 170, "pre": ["o0 == 1 or o0 == 5", "c2 == 0 or o2 == 5", "w == 2", "arr == False"],
-                          "parts": [(f"p{p}_c{c}", f"p0 == {p} and c0 == {c}") for p in (0, 1) for c in range(8) if not (p == 1 and c >= NB)]},
-                "thorough": {"timeout": 1500, "pre": ["c2 <= 1", "arr == False or (c0 <= 3 and c1 <= 3 and c2 <= 1)"], "parts": [(f"p{p}_c{c}_o{o}", f"p0 == {p} and c0 == {c} and o1 == {o}") for p in (0, 1) for c in range(8) for o in range(6) if not (p == 1 and c >= NB)]}},
+         tiers={"quick": {"timeout": 170, "pre": ["o0 == 1 or o0 == 5", "c2 == 0 or o2 == 5", "w == 2", "arr == False", "p2 <= 1"],
+                          "parts": [(f"p{p}_c{c}", f"p0 == {p} and c0 == {c}") for p in (0, 1) for c in range(8) if not (p >= 1 and c >= NB)]},
+                "thorough": {"timeout": 1500, "pre": ["c2 <= 1", "arr == False or (c0 <= 3 and c1 <= 3 and c2 <= 1)"], "parts": [(f"p{p}_c{c}_o{o}", f"p0 == {p} and c0 == {c} and o1 == {o}") for p in (0, 1, 2) for c in range(8) for o in range(6) if not (p >= 1 and c >= NB)]}},
          sample=(1, 0, 5, 1, 0, 1, 2, 0, 0, 2, False),
-         bounds="histories of 3 operations (+ completion) on the bus port and the bundle port of an Instance (and an InstanceArray with signal/slice/bundle connections); op in {call, setattr, connect, replace, disconnect, a third instance taking a reference to the edited port}; bus-port connectables: 2 signals, 2 bus halves, concatenation, port reference, unnamed / named no-connect; bundle-port connectables: internal bundle, bundle port, 2 anonymous bundles, port reference, reference into a nested bundle; w <= 2 (quick tier: w = 2, Instance only, first operation by assignment, third operation's connectable fixed; thorough: all first operations, arrays, two third connectables)",
+         bounds="histories of 3 operations (+ completion) on the bus port and the two bundle ports (one bundle type: one object may be tied to both) of an Instance (and an InstanceArray with signal/slice/bundle connections); op in {call, setattr, connect, replace, disconnect, a third instance taking a reference to the edited port}; bus-port connectables: 2 signals, 2 bus halves, concatenation, port reference, unnamed / named no-connect; bundle-port connectables: internal bundle, bundle port, 2 anonymous bundles, port reference, reference into a nested bundle; w <= 2 (quick tier: w = 2, Instance only, first operation by assignment, third operation's connectable fixed, the second bundle port only in the second operation; thorough: all first operations, arrays, two third connectables)",
          generalises="operation / port / connectable selectors (exhaustive path enumeration); width", outside="histories longer than 3; more than two ports; Pair histories")
 def histories(o0, p0, c0, o1, p1, c1, o2, p2, c2, w, arr):
     P = env.pick
-    ops = [(P(o0, 0, 5), P(p0, 0, 1), P(c0, 0, 7)), (P(o1, 0, 5), P(p1, 0, 1), P(c1, 0, 7)), (P(o2, 0, 5), P(p2, 0, 1), P(c2, 0, 7))]
+    ops = [(P(o0, 0, 5), P(p0, 0, 2), P(c0, 0, 7)), (P(o1, 0, 5), P(p1, 0, 2), P(c1, 0, 7)), (P(o2, 0, 5), P(p2, 0, 2), P(c2, 0, 7))]
     arr, w = bool(arr), P(w, 1, 2)
     with env.notrace():  # every input is a selector (or a width in {1,2}): solver-enumerated, each history runs concretely
         for op, port, c in ops:
